@@ -9,7 +9,9 @@ mw I N | route I <path> N | reg I <prefix> N | struct I <root> N             (no
 get I <path>                    -> I none | I handler N mws a,b [ptr H | segs k t…]
 match I reg|struct <prefix> <path>   (one fresh mount)  -> I 0 | I 1 ptr H | I 1 segs k t…
 tok I <ptr>                     -> I segs k t…          (`json_pointer::parse`)
-twin I <kind> <blocking> <nmw> <bfmt> <body> <j><b><s><r> <ok|err N>  -> I <class> exec <inline|offreader>
+twin I <kind> <blocking> <nmw> <bfmt> <body> <j><b><s><r> <ok|err> <code> <order> <voff> <qfmt> <query> <id>
+                                -> I <ok|rej N|fail|-> exec <inline|offreader>
+   (order, view offset, query and id only steer the implementation run: the routes must agree whatever they are)
 ```
 Strings are hex of their UTF-8 bytes ("-" = empty). -/
 namespace Repe.Driver.Router
@@ -108,7 +110,7 @@ def step (r : Router.Router) (ws : List String) : Router.Router × String :=
     match strOfHex p with
     | some p => (r, idx ++ " " ++ showSegs (jsonPointerParse p))
     | none => (r, idx ++ " bad-op")
-  | ["twin", idx, kind, blocking, nmw, bfmt, _body, hints, cres, ccode] =>
+  | ["twin", idx, kind, blocking, nmw, bfmt, _body, hints, cres, ccode, _order, _voff, _qfmt, _query, _rid] =>
     match gateOf kind with
     | none => (r, idx ++ " bad-op")
     | some g =>
